@@ -27,6 +27,7 @@ import "golang.org/x/telemetry/internal/telemetry"
 //@ ghost markerAbsent bool
 //@ ghost private bool
 //@ ghost contributed bool
+//@ ghost nprog int
 
 // An uploader's configuration and logger, and the maps of a report entry, are
 // set when the object is built and never replaced.
@@ -114,7 +115,7 @@ func specProgram(p *telemetry.ProgramReport) bool {
 //@   loop 2: invariant u.cache.m == old(u.cache.m) || fresh(u.cache.m)
 //@   loop 1: invariant uploaderOK(u) && todo != nil && $fsops == old($fsops) && (len(todo.readyfiles) > 0 ==> $mode == "on") && $mode != "off" && countFiles != nil && earliest != nil
 //@   loop 2: invariant uploaderOK(u) && todo != nil && (len(todo.readyfiles) > 0 ==> $mode == "on") && $mode != "off"
-//@   modifies todo.readyfiles, u.cache.m, entries(u.cache.m), maps(string, int64), $fsops, $reportExists, $contributed, $minsize
+//@   modifies todo.readyfiles, u.cache.m, entries(u.cache.m), maps(string, int64), $fsops, $reportExists, $contributed, $minsize, $nprog
 
 //@ contract latestReport
 //@   loop 1: invariant latest == "" || strings.HasSuffix(latest, ".json")
@@ -236,9 +237,12 @@ func specProgram(p *telemetry.ProgramReport) bool {
 //@   loop 3: invariant forall j int :: 0 <= j && j < len(upload.Programs) ==> allocated(upload.Programs[j]) && allocated(upload.Programs[j].Counters) && allocated(upload.Programs[j].Stacks)
 //@   loop 3: invariant forall j int, k string :: 0 <= j && j < len(upload.Programs) && in(k, upload.Programs[j].Counters) ==> cfg.HasCounter(upload.Programs[j].Program, k)
 //@   loop 3: invariant forall j int, k string :: 0 <= j && j < len(upload.Programs) && in(k, upload.Programs[j].Stacks) ==> cfg.HasStack(upload.Programs[j].Program, config.SpecStackName(k))
+// ... and a program entry is left out exactly when its build is not approved.
+//@   at call HasGoVersion#1: ghost $nprog = len(upload.Programs)
+//@   at loop 3 end: assert len(upload.Programs) == $nprog + ite(approvedBuild(cfg, p), 1, 0)
 //@   at call MarshalIndent#2: assert same(upload.X, report.X) && upload.Week == report.Week
 //@   at call MarshalIndent#2: assert approvedReport(cfg, upload)
-//@   modifies u.cache.m, entries(u.cache.m), maps(string, int64), $fsops, $reportExists, $contributed, $minsize
+//@   modifies u.cache.m, entries(u.cache.m), maps(string, int64), $fsops, $reportExists, $contributed, $minsize, $nprog
 
 // uploadReport: a report dated in the future is not sent.
 //@ contract (*uploader).uploadReport
